@@ -21,11 +21,14 @@ ASSUMPTIONS = [
 
 POOLS = [
     [T('double'), T('ns::Pose3'), T('size_t'), T('Cam', t=[T('ns::Cal')]), T('3'), T('test'), T('n1::n2::X'),
-     T('vector', t=[T('geo::Point2')]), T('keyType')],
+     T('vector', t=[T('geo::Point2')]), T('keyType'),
+     T('vector', t=[T('vector', t=[T('double')])]), T('vector', t=[T('vector', t=[T('int')])]), T('Map', t=[T('string'), T('vector', t=[T('ns::V')])])],
     [T('int'), T('gt::Rot2'), T('string'), T('Cam', t=[T('ns::Cal'), T('int')]), T('7'), T('aaba'), T('m::k::Y'),
-     T('list', t=[T('geo::Pose3')]), T('valueType')],
+     T('list', t=[T('geo::Pose3')]), T('valueType'),
+     T('list', t=[T('list', t=[T('bool')])]), T('list', t=[T('list', t=[T('char')])]), T('Map', t=[T('int'), T('list', t=[T('ns::W')])])],
     [T('float'), T('x::Point'), T('bool'), T('Pin', t=[T('Cam', t=[T('ns::Cal')])]), T('12'), T('stats'), T('p::q::Z'),
-     T('deque', t=[T('ns::Rot3')]), T('camelCaseName')],
+     T('deque', t=[T('ns::Rot3')]), T('camelCaseName'),
+     T('deque', t=[T('deque', t=[T('float')])]), T('deque', t=[T('deque', t=[T('size_t')])]), T('Map', t=[T('Key'), T('deque', t=[T('ns::U')])])],
 ]
 PNAMES = ['T', 'POSE', 'U1']
 
@@ -79,7 +82,7 @@ def gen_cases(seed, thorough):
                     yield 'header-func', wrap_ns(surround([func_decl(tpl)]), depth)
     # 1b. lower-case and camelCase argument names (capitalisation of the first letter only), and namespace chains that
     #     repeat a name
-    for lengths in ([2], [1, 2]):
+    for lengths in ([2], [1, 2], [3], [2, 3]):
         tpl = header(lengths, pool, 7)
         yield 'header-class', wrap_ns(surround([class_decl(tpl)]), 1)
         yield 'header-func', wrap_ns(surround([func_decl(tpl)]), 1)
